@@ -290,6 +290,29 @@ pub fn map_roundtrip<K: SimK, V: SimV, const C1: usize, const C2: usize>(m: &Map
     let diag = cfg.truncate.is_some() || cfg.flip_bit.is_some() || cfg.ser_fail_at.is_some() || cfg.de_fail_at.is_some() || cfg.dup_at.is_some() || (!cfg.bincode && cfg.hint >= 2);
     let len = pre.len();
     if len > C2 {
+        // more entries than the target can hold: decoding may panic or report an error, never succeed
+        if !diag && !cx.lying && !K::ANON && !cfg.bincode {
+            cx.probe("serde_target_too_small");
+            let mut ser = TokSer { log: Vec::new(), fail_at: None };
+            if m.serialize(&mut ser).is_ok() {
+                if let Some(ents) = account("Map::serialize", &ser.log, pre, m.len(), true, K::ANON, V::ANON) {
+                    let mut de = TokDe { hint: hint_of(cfg.hint.min(1), ents.len()), entries: ents, pos: 0, pending_val: None, fail_at: None };
+                    let r = catch_unwind(AssertUnwindSafe(|| Map::<K, V, C2>::deserialize(&mut de)));
+                    match r {
+                        Ok(Ok(d)) => {
+                            violate("overflow-swallowed", format!("decoding {len} distinct keys into a map of capacity {C2} returned Ok with {} entries", d.len()));
+                            drop(d);
+                        }
+                        Ok(Err(_)) => {}
+                        Err(p) => {
+                            if sim_panic(&p) {
+                                resume_unwind(p);
+                            }
+                        }
+                    }
+                }
+            }
+        }
         return;
     }
     if C2 == len {
@@ -301,7 +324,7 @@ pub fn map_roundtrip<K: SimK, V: SimV, const C1: usize, const C2: usize>(m: &Map
     let decoded: Result<Map<K, V, C2>, String>;
     if cfg.bincode {
         let bc = bincode::config::legacy();
-        let mut buf = [0u8; 1024];
+        let mut buf = [0u8; 8192];
         let n = match win!(aw, bincode::serde::encode_into_slice(m, &mut buf, bc)) {
             Ok(n) => n,
             Err(e) => {
@@ -373,7 +396,20 @@ pub fn map_roundtrip<K: SimK, V: SimV, const C1: usize, const C2: usize>(m: &Map
             }
         }
         let mut de = TokDe { hint: hint_of(cfg.hint, ents.len()), entries: ents, pos: 0, pending_val: None, fail_at: cfg.de_fail_at };
-        let r = catch_unwind(AssertUnwindSafe(|| Map::<K, V, C2>::deserialize(&mut de)));
+        let r = if cfg.in_place {
+            // the target already holds entries (some with keys the source lacks): they must be gone afterwards
+            cx.probe("serde_deserialize_in_place");
+            let mut target: Map<K, V, C2> = Map::new();
+            for i in 0..(cfg.permute as usize % 3).min(C2) {
+                target.insert(K::make(200 + i as u32, 0), V::make(77, 0));
+            }
+            catch_unwind(AssertUnwindSafe(|| {
+                let mut target = target;
+                <Map<K, V, C2> as Deserialize>::deserialize_in_place(&mut de, &mut target).map(|()| target)
+            }))
+        } else {
+            catch_unwind(AssertUnwindSafe(|| Map::<K, V, C2>::deserialize(&mut de)))
+        };
         decoded = match r {
             Ok(Ok(d)) => Ok(d),
             Ok(Err(e)) => Err(format!("deserialize error: {e}")),
@@ -411,6 +447,28 @@ pub fn set_roundtrip<K: SimK, V: SimV, const C1: usize, const C2: usize>(s: &Set
     let diag = cfg.truncate.is_some() || cfg.flip_bit.is_some() || cfg.ser_fail_at.is_some() || cfg.de_fail_at.is_some() || cfg.dup_at.is_some() || (!cfg.bincode && cfg.hint >= 2);
     let len = pre.len();
     if len > C2 {
+        if !diag && !cx.lying && !K::ANON && !cfg.bincode {
+            cx.probe("serde_target_too_small");
+            let mut ser = TokSer { log: Vec::new(), fail_at: None };
+            if s.serialize(&mut ser).is_ok() {
+                if let Some(ents) = account("Set::serialize", &ser.log, pre, s.len(), false, K::ANON, true) {
+                    let mut de = TokDe { hint: hint_of(cfg.hint.min(1), ents.len()), entries: ents, pos: 0, pending_val: None, fail_at: None };
+                    let r = catch_unwind(AssertUnwindSafe(|| Set::<K, C2>::deserialize(&mut de)));
+                    match r {
+                        Ok(Ok(d)) => {
+                            violate("overflow-swallowed", format!("decoding {len} distinct elements into a set of capacity {C2} returned Ok with {} elements", d.len()));
+                            drop(d);
+                        }
+                        Ok(Err(_)) => {}
+                        Err(p) => {
+                            if sim_panic(&p) {
+                                resume_unwind(p);
+                            }
+                        }
+                    }
+                }
+            }
+        }
         return;
     }
     if diag {
@@ -419,7 +477,7 @@ pub fn set_roundtrip<K: SimK, V: SimV, const C1: usize, const C2: usize>(s: &Set
     let decoded: Result<Set<K, C2>, String>;
     if cfg.bincode {
         let bc = bincode::config::legacy();
-        let mut buf = [0u8; 1024];
+        let mut buf = [0u8; 8192];
         let n = match win!(aw, bincode::serde::encode_into_slice(s, &mut buf, bc)) {
             Ok(n) => n,
             Err(e) => {
@@ -484,7 +542,19 @@ pub fn set_roundtrip<K: SimK, V: SimV, const C1: usize, const C2: usize>(s: &Set
             }
         }
         let mut de = TokDe { hint: hint_of(cfg.hint, ents.len()), entries: ents, pos: 0, pending_val: None, fail_at: cfg.de_fail_at };
-        let r = catch_unwind(AssertUnwindSafe(|| Set::<K, C2>::deserialize(&mut de)));
+        let r = if cfg.in_place {
+            cx.probe("serde_deserialize_in_place");
+            let mut target: Set<K, C2> = Set::new();
+            for i in 0..(cfg.permute as usize % 3).min(C2) {
+                target.insert(K::make(200 + i as u32, 0));
+            }
+            catch_unwind(AssertUnwindSafe(|| {
+                let mut target = target;
+                <Set<K, C2> as Deserialize>::deserialize_in_place(&mut de, &mut target).map(|()| target)
+            }))
+        } else {
+            catch_unwind(AssertUnwindSafe(|| Set::<K, C2>::deserialize(&mut de)))
+        };
         decoded = match r {
             Ok(Ok(d)) => Ok(d),
             Ok(Err(e)) => Err(format!("deserialize error: {e}")),
